@@ -44,7 +44,7 @@ class Contract(_Keep):
                  returns=None, raises=None, loops=None, ghost=None, on_yield=None,
                  inline=False, variants=None, canaries=(), replay=None, int_mode=None,
                  verify=True, assumptions=(), note="", spec_funcs=None, inline_callees=(),
-                 ensures_on_raise=None, max_paths=4000, label=None, known_extra=None, harness=None, cost=1, canary_variants=2, native_fallback=None, timeout_ms=None, externals=None, effect=None, opts=None):
+                 ensures_on_raise=None, max_paths=4000, label=None, known_extra=None, harness=None, cost=1, canary_variants=2, native_fallback=None, timeout_ms=None, externals=None, effect=None, opts=None, cover_hint=None):
         self.key = key
         self.props = list(props)
         self.setup = setup
@@ -78,6 +78,7 @@ class Contract(_Keep):
         self.effect = effect
         self.canary_variants = canary_variants
         self.opts = dict(opts or {})
+        self.cover_hint = cover_hint      # fn(I, env) -> extra constraints describing ONE concrete pre-state (cover query only)
 
 
 class Registry(object):
